@@ -6,6 +6,8 @@
 (* payloads of different kinds never meet):                                *)
 (*   none 0 | bool b | int n | float <<num, den>> (reduced, den > 0)       *)
 (*   str "text" | enum <<class, member>> | path "name" (a Path object)     *)
+(*   reg <<type, code>>  a value of a registered type (timedelta, range,   *)
+(*        Decimal, complex, UUID, bytes), named by a code                  *)
 (*   list <<...>> | tuple <<...>> | set {...}                              *)
 (*   dict << <<key, value>>, ... >>  in insertion order, keys distinct     *)
 (*   bag [element -> count]  a set WRITTEN as a list by dump (any order)   *)
@@ -13,6 +15,9 @@
 (*   fail 0  "the loader raised" (never a value of a configuration)        *)
 (* TYPE TERMS use the same record shape:                                   *)
 (*   str int float bool none any path <<>>     leaf types                  *)
+(*   rstr / rnum / reg <<[name]>>  user-defined restricted str / number    *)
+(*        types and built-in registered types, defined by the tables       *)
+(*        RStrDefs / RNumDefs / RegDefs                                    *)
 (*   literal <<values>>   enum <<[k |-> "cls", v |-> name]>>               *)
 (*   list <<t>> (<<>> = bare list)   set <<t>>   tupleE <<t>> (Tuple[t,...])*)
 (*   tuple <<t1..tn>>   dict <<kt, vt>> (<<>> = bare dict)   union <<t1..>> *)
@@ -52,6 +57,9 @@
 (*   noneOverDefault (dump; recognised by Trace_Types) an explicit None for *)
 (*               an argument that has a default is left out by dump        *)
 (*               (skip_none), so the re-parse fills in the default again.  *)
+(*   clashKey    an argument named like a Namespace method (items, keys,   *)
+(*               get ...) is not normalised by parse_object / parse_string:*)
+(*               List[int] keeps ['3'].                                    *)
 (*   setListing  a set with two or more members is turned into a List or   *)
 (*               Tuple: the order is whatever Python lists the set in, so  *)
 (*               Union[Tuple[int,str],Set[str]] may read its own result    *)
@@ -113,6 +121,7 @@ SetV(S)       == [k |-> "set", v |-> S]
 DictV(ps)     == [k |-> "dict", v |-> ps]
 BagV(f)       == [k |-> "bag", v |-> f]
 PathV(name)   == [k |-> "path", v |-> name]        \* a jsonargparse Path object (by the name it was given)
+RegV(n, code) == [k |-> "reg", v |-> <<n, code>>]  \* a value of the registered type n; code names the value (see RegDefs)
 FileV(name, c) == [k |-> "file", v |-> <<name, c>>] \* INPUT only: the name of an existing config file whose content loads as c
 ExcV          == [k |-> "exc", v |-> 0]
 FailV         == [k |-> "fail", v |-> 0]
@@ -126,6 +135,11 @@ BoolT         == LeafT("bool")
 NoneT         == LeafT("none")
 AnyT          == LeafT("any")
 PathT         == LeafT("path")                     \* typing.Path_fr, a registered type
+NameOf(n)     == <<[k |-> "name", v |-> n]>>
+RStrT(n)      == [k |-> "rstr", v |-> NameOf(n)]   \* restricted_string_type(n, RStrDefs[n].pat): a user-defined restricted str
+RNumT(n)      == [k |-> "rnum", v |-> NameOf(n)]   \* restricted_number_type(n, base, restrictions, join) as in RNumDefs[n]
+RegT(n)       == [k |-> "reg", v |-> NameOf(n)]    \* a built-in registered type: timedelta range decimal complex uuid bytes
+DefName(t)    == t.v[1].v
 LitT(ms)      == [k |-> "literal", v |-> ms]
 EnumT(c)      == [k |-> "enum", v |-> <<[k |-> "cls", v |-> c]>>]
 ListT(t)      == [k |-> "list", v |-> <<t>>]
@@ -216,6 +230,8 @@ YamlTbl ==
   @@ ("{1: 2}" :> D1(IntV(1), IntV(2))) @@ ("{\"a\": null}" :> D1(StrV("a"), NoneV))
   @@ ("{\"a\": [1]}" :> D1(StrV("a"), ListV(<<IntV(1)>>))) @@ ("a: 1" :> D1(StrV("a"), IntV(1)))
   @@ ("{\"a\": \"1\", \"b\": x}" :> DictV(<< <<StrV("a"), StrV("1")>>, <<StrV("b"), StrV("x")>> >>))
+  @@ ("1:00:00" :> IntV(3600)) @@ ("25:00:00" :> IntV(90000)) @@ ("24:00:00" :> IntV(86400)) @@ ("1:00" :> IntV(60))      \* YAML 1.1 base 60
+  @@ ("0:00:00.5" :> FloatV(1, 2)) @@ ("0:00:00.500000" :> FloatV(1, 2)) @@ ("5" :> IntV(5)) @@ ("1234" :> IntV(1234))
   @@ ("[1" :> FailV) @@ ("{a" :> FailV) @@ ("\"a" :> FailV) @@ ("a: b: c" :> FailV)
 Yaml(s)  == IF s \in DOMAIN YamlTbl THEN YamlTbl[s] ELSE StrV(s)       \* yaml_load:85-96
 Blank(s) == s \in {"", " "}
@@ -256,6 +272,91 @@ CastFold(ps, i, acc, ser) ==
                            ELSE Append(acc, <<key, ps[i][2], i>>), ser)
 
 (***************************************************************************)
+(* Restricted and registered types (typing.py).  Regular expressions,      *)
+(* timedelta arithmetic, base64 ... are not computed here: each type is a  *)
+(* small TABLE over the texts / values of the instance, written from the   *)
+(* documented semantics (re.match: the match starts at position 0; str()   *)
+(* of a timedelta; the forms range_deserializer lists; Python's int() /    *)
+(* float() / Decimal() / complex() / UUID() on a string); the run executes *)
+(* every row on the real constructor first.                                *)
+(***************************************************************************)
+\* restricted_string_type:179-215.  m: the texts of the instance that the pattern matches AT POSITION 0 (re.match).
+\* "xABC-1234" and "sku ABC-1234" contain a match of sku_u further right (re.search would find it): not accepted.
+RStrDefs == ("sku_u" :> [pat |-> "[A-Z]{3}-[0-9]{4}$", m |-> {"ABC-1234"}])          \* not anchored with ^
+         @@ ("sku_a" :> [pat |-> "^[A-Z]{3}-[0-9]{4}$", m |-> {"ABC-1234"}])
+         @@ ("pre"   :> [pat |-> "ab", m |-> {"ab", "abc"}])                            \* a prefix: nothing anchors the end
+\* float(text) of Python (int(text) is PyIntTbl): not YAML -- "0x10" is refused, "1_000" and " 1 " are read
+PyFloatTbl == ("0" :> <<0, 1>>) @@ ("1" :> <<1, 1>>) @@ ("2" :> <<2, 1>>) @@ ("-1" :> <<-1, 1>>) @@ (" 1 " :> <<1, 1>>) @@ ("1_000" :> <<1000, 1>>)
+           @@ ("1.5" :> <<3, 2>>) @@ ("1.0" :> <<1, 1>>) @@ ("1e3" :> <<1000, 1>>) @@ ("-0.5" :> <<-1, 2>>)
+\* restricted_number_type:106-176.  rs: <<operator, numerator, denominator of the reference>>
+\* (user-defined: none of them is one of the predefined types PositiveInt, NonNegativeInt, ClosedUnitInterval ...)
+RNumDefs == ("gt1i" :> [base |-> "int", join |-> "and", rs |-> << <<">", 1, 1>> >>])
+         @@ ("ge1i" :> [base |-> "int", join |-> "and", rs |-> << <<">=", 1, 1>> >>])
+         @@ ("lt2i" :> [base |-> "int", join |-> "and", rs |-> << <<"<", 2, 1>> >>])
+         @@ ("le1i" :> [base |-> "int", join |-> "and", rs |-> << <<"<=", 1, 1>> >>])
+         @@ ("eq1i" :> [base |-> "int", join |-> "and", rs |-> << <<"==", 1, 1>> >>])
+         @@ ("ne1i" :> [base |-> "int", join |-> "and", rs |-> << <<"!=", 1, 1>> >>])
+         @@ ("gthf" :> [base |-> "float", join |-> "and", rs |-> << <<">", 1, 2>> >>])
+         @@ ("in02f" :> [base |-> "float", join |-> "and", rs |-> << <<">=", 0, 1>>, <<"<=", 2, 1>> >>])
+         @@ ("out01i" :> [base |-> "int", join |-> "or", rs |-> << <<"<", 0, 1>>, <<">", 1, 1>> >>])
+Cmp(op, a, b) == LET l == a[1] * b[2]  r == b[1] * a[2]                                  \* a, b: <<num, den>>, den > 0
+                 IN CASE op = ">" -> l > r [] op = ">=" -> l >= r [] op = "<" -> l < r [] op = "<=" -> l <= r [] op = "==" -> l = r [] op = "!=" -> l # r
+\* validation_fn:159-167 then cls._type(v):  bool is refused, a float that is not integral is refused for an int base,
+\* a string goes through int() / float(); the result is a value of the base type
+RNumCast(df, x) ==
+  IF x.k = "int" THEN (IF df.base = "int" THEN x ELSE FloatV(x.v, 1))
+  ELSE IF x.k = "float" THEN (IF df.base = "float" THEN x ELSE IF x.v[2] = 1 THEN IntV(x.v[1]) ELSE FailV)
+  ELSE IF x.k = "str" /\ df.base = "int" /\ x.v \in DOMAIN PyIntTbl THEN IntV(PyIntTbl[x.v])
+  ELSE IF x.k = "str" /\ df.base = "float" /\ x.v \in DOMAIN PyFloatTbl THEN FloatV(PyFloatTbl[x.v][1], PyFloatTbl[x.v][2])
+  ELSE FailV                                                                             \* bool, None, containers, other texts
+RNumHolds(df, y) == LET cs == {Cmp(df.rs[i][1], NumOf(y), <<df.rs[i][2], df.rs[i][3]>>) : i \in 1..Len(df.rs)}
+                    IN IF df.join = "and" THEN cs = {TRUE} ELSE TRUE \in cs
+RNumOk(df, x) == RNumCast(df, x) # FailV /\ RNumHolds(df, RNumCast(df, x))
+
+\* Registered types:385-468.  ser: value code -> what the serializer writes (a text; a float for Decimal);
+\* txt: text -> value code, every spelling the deserializer reads; num: the non-str values the constructor takes;
+\* bad: texts it refuses (candidates of the instance).  Codes: timedelta in microseconds, range "start,stop,step",
+\* Decimal "num/den", complex "re,im" as fractions, bytes in hex.
+TdH1 == "3600000000"  TdH25 == "90000000000"  TdD1 == "86400000000"  TdD2 == "172800000000"  TdHM1 == "-3600000000"  TdHalf == "500000"
+UU == "12345678-1234-5678-1234-567812345678"
+RegDefs ==
+     ("timedelta" :> [ser |-> (TdH1 :> StrV("1:00:00")) @@ (TdH25 :> StrV("1 day, 1:00:00")) @@ (TdD1 :> StrV("1 day, 0:00:00")) @@ (TdD2 :> StrV("2 days, 0:00:00"))
+                              @@ (TdHM1 :> StrV("-1 day, 23:00:00")) @@ (TdHalf :> StrV("0:00:00.500000")),
+                      txt |-> ("1:00:00" :> TdH1) @@ ("01:00:00" :> TdH1) @@ ("25:00:00" :> TdH25) @@ ("24:00:00" :> TdD1) @@ ("1 day, 1:00:00" :> TdH25)
+                              @@ ("1 days, 1:00:00" :> TdH25) @@ ("1 day, 0:00:00" :> TdD1) @@ ("2 days, 0:00:00" :> TdD2) @@ ("-1 day, 23:00:00" :> TdHM1)
+                              @@ ("0:00:00.5" :> TdHalf) @@ ("0:00:00.500000" :> TdHalf),
+                      num |-> << >>, bad |-> {"1:00", "1 day", "abc", "1"}])
+  @@ ("range" :> [ser |-> ("0,5,1" :> StrV("range(5)")) @@ ("0,10,2" :> StrV("range(0, 10, 2)")) @@ ("1,5,1" :> StrV("range(1, 5)")) @@ ("0,0,1" :> StrV("range(0)"))
+                          @@ ("-3,5,-1" :> StrV("range(-3, 5, -1)")),
+                  txt |-> ("range(5)" :> "0,5,1") @@ ("range(0, 5)" :> "0,5,1") @@ ("range(0, 5, 1)" :> "0,5,1") @@ ("range(0, 10, 2)" :> "0,10,2")
+                          @@ ("range(0,10,2)" :> "0,10,2") @@ ("range(1, 5)" :> "1,5,1") @@ ("range(1,5)" :> "1,5,1") @@ ("range(0)" :> "0,0,1") @@ ("range(-3, 5, -1)" :> "-3,5,-1"),
+                  num |-> << >>, bad |-> {"5", "range(1, 2, 3, 4)", "range(a)", "abc"}])
+  @@ ("decimal" :> [ser |-> ("0/1" :> FloatV(0, 1)) @@ ("1/2" :> FloatV(1, 2)) @@ ("1/1" :> FloatV(1, 1)) @@ ("2/1" :> FloatV(2, 1)) @@ ("3/2" :> FloatV(3, 2)) @@ ("1000/1" :> FloatV(1000, 1)) @@ ("-1/2" :> FloatV(-1, 2)),
+                    txt |-> ("0" :> "0/1") @@ ("0.5" :> "1/2") @@ ("1" :> "1/1") @@ ("1.0" :> "1/1") @@ (" 1 " :> "1/1") @@ ("2" :> "2/1") @@ ("1.5" :> "3/2") @@ ("1_000" :> "1000/1") @@ ("1e3" :> "1000/1") @@ ("-0.5" :> "-1/2"),
+                    num |-> (IntV(0) :> "0/1") @@ (BoolV(FALSE) :> "0/1") @@ (FloatV(0, 1) :> "0/1") @@ (IntV(1) :> "1/1") @@ (IntV(2) :> "2/1") @@ (BoolV(TRUE) :> "1/1") @@ (FloatV(1, 2) :> "1/2") @@ (FloatV(1, 1) :> "1/1") @@ (FloatV(2, 1) :> "2/1")
+                            @@ (FloatV(3, 2) :> "3/2") @@ (FloatV(1000, 1) :> "1000/1") @@ (FloatV(-1, 2) :> "-1/2"),
+                    bad |-> {"abc", "0x10", "true"}])
+  @@ ("complex" :> [ser |-> ("0/1,0/1" :> StrV("0j")) @@ ("2/1,0/1" :> StrV("(2+0j)")) @@ ("1/1,2/1" :> StrV("(1+2j)")) @@ ("0/1,1/1" :> StrV("1j")) @@ ("1/1,0/1" :> StrV("(1+0j)")) @@ ("3/2,0/1" :> StrV("(1.5+0j)")),
+                    txt |-> ("0j" :> "0/1,0/1") @@ ("0" :> "0/1,0/1") @@ ("(2+0j)" :> "2/1,0/1") @@ ("2" :> "2/1,0/1") @@ ("1+2j" :> "1/1,2/1") @@ ("(1+2j)" :> "1/1,2/1") @@ ("1j" :> "0/1,1/1") @@ ("1" :> "1/1,0/1") @@ ("(1+0j)" :> "1/1,0/1") @@ ("1.5" :> "3/2,0/1") @@ ("(1.5+0j)" :> "3/2,0/1"),
+                    num |-> (IntV(0) :> "0/1,0/1") @@ (BoolV(FALSE) :> "0/1,0/1") @@ (IntV(1) :> "1/1,0/1") @@ (BoolV(TRUE) :> "1/1,0/1") @@ (IntV(2) :> "2/1,0/1")
+                            @@ (FloatV(2, 1) :> "2/1,0/1") @@ (FloatV(3, 2) :> "3/2,0/1") @@ (FloatV(1, 1) :> "1/1,0/1"),
+                    bad |-> {"1 + 2j", "abc"}])
+  @@ ("uuid" :> [ser |-> (UU :> StrV(UU)), txt |-> (UU :> UU) @@ ("{" \o UU \o "}" :> UU) @@ ("urn:uuid:" \o UU :> UU), num |-> << >>, bad |-> {"abc", "1234"}])
+  @@ ("bytes" :> [ser |-> ("" :> StrV("")) @@ ("6162" :> StrV("YWI=")) @@ ("ff00" :> StrV("/wA=")) @@ ("61" :> StrV("YQ==")),
+                  txt |-> ("" :> "") @@ ("YWI=" :> "6162") @@ ("/wA=" :> "ff00") @@ ("YQ==" :> "61"), num |-> << >>, bad |-> {"YWI", "a", "1"}])
+RegNames == DOMAIN RegDefs
+RegValues(n) == {RegV(n, c) : c \in DOMAIN RegDefs[n].ser}
+\* what the deserializer makes of x (a value code), or "" \o FailV ...: the value itself when it already is one
+RegRead(n, x) == IF x.k = "reg" /\ x.v[1] = n THEN x
+                 ELSE IF IsStr(x) /\ x.v \in DOMAIN RegDefs[n].txt THEN RegV(n, RegDefs[n].txt[x.v])
+                 ELSE IF x \in DOMAIN RegDefs[n].num THEN RegV(n, RegDefs[n].num[x])
+                 ELSE FailV
+RegWrite(n, x) == RegDefs[n].ser[x.v[2]]
+\* The parser accepts its own dump: whatever a serializer writes is read back as the value it was written for
+\* (C20 / C10 for these types; checked by TLC when the module is loaded)
+ASSUME RegSelfConsistent == \A n \in RegNames : \A y \in RegValues(n) : RegRead(n, RegWrite(n, y)) = y
+
+(***************************************************************************)
 (* Ref layer                                                               *)
 (***************************************************************************)
 LitMembers(t) == Range(t.v)
@@ -286,6 +387,9 @@ Acc(t, x) ==
   CASE t.k = "any"       -> TRUE
     [] t.k \in LeafKinds -> LeafAcc(t.k, x)
     [] t.k = "path"      -> x.k = "path" \/ (IsStr(x) /\ x.v \in ExistingFiles)
+    [] t.k = "rstr"      -> IsStr(x) /\ x.v \in RStrDefs[DefName(t)].m               \* the pattern matches at position 0
+    [] t.k = "rnum"      -> RNumOk(RNumDefs[DefName(t)], x)                          \* converts to the base type and the comparisons hold
+    [] t.k = "reg"       -> RegRead(DefName(t), x) # FailV
     [] t.k = "literal"   -> LitRead(t, x) \in LitMembers(t) /\ (LitRead(t, x) # x => LitRead(t, x).k # "str")
     [] t.k = "enum"      -> (x.k = "enum" /\ x.v[1] = EnumCls(t)) \/ (x.k = "str" /\ x.v \in EnumMembers(EnumCls(t)))
     [] t.k = "union"     -> \E i \in 1..Len(t.v) : Acc(t.v[i], x)
@@ -302,6 +406,9 @@ Res(t, x) ==
   ELSE CASE t.k = "any"       -> IF IsStr(x) THEN {LoadSimple(x.v)} ELSE {x}          \* a string is read as what it spells
          [] t.k \in LeafKinds -> LeafRes(t.k, x)
          [] t.k = "path"      -> IF IsStr(x) THEN {PathV(x.v)} ELSE {x}
+         [] t.k = "rstr"      -> {x}
+         [] t.k = "rnum"      -> {RNumCast(RNumDefs[DefName(t)], x)}
+         [] t.k = "reg"       -> {RegRead(DefName(t), x)}
          [] t.k = "literal"   -> {LitRead(t, x)}
          [] t.k = "enum"      -> IF x.k = "enum" THEN {x} ELSE {EnumV(EnumCls(t), x.v)}
          [] t.k = "union"     -> UNION {Res(t.v[i], x) : i \in 1..Len(t.v)}
@@ -318,6 +425,9 @@ Conforms(t, x) ==
   CASE t.k = "any"       -> ~IsStr(x) \/ LoadSimple(x.v) = x                 \* a string that spells something else is not normalised
     [] t.k \in LeafKinds -> x.k = t.k
     [] t.k = "path"      -> x.k = "path"
+    [] t.k = "rstr"      -> IsStr(x) /\ x.v \in RStrDefs[DefName(t)].m
+    [] t.k = "rnum"      -> x.k = RNumDefs[DefName(t)].base /\ RNumHolds(RNumDefs[DefName(t)], x)
+    [] t.k = "reg"       -> x.k = "reg" /\ x.v[1] = DefName(t)
     [] t.k = "literal"   -> x \in LitMembers(t)
     [] t.k = "enum"      -> x.k = "enum" /\ x.v[1] = EnumCls(t) /\ x.v[2] \in EnumMembers(EnumCls(t))
     [] t.k = "union"     -> \E i \in 1..Len(t.v) : Conforms(t.v[i], x)
@@ -390,6 +500,7 @@ AlgAdapt(t, val, orig, top, ser) ==
   CASE t.k = "any" ->                                                                    \* :762-769
          IF val.k = "enum" THEN Ok(IF ser THEN StrV(val.v[2]) ELSE val, {}, val)         \* adapt(val, type(val)): the Enum branch
          ELSE IF val.k = "path" THEN Ok(IF ser THEN StrV(val.v) ELSE val, {}, val)       \* ... a registered type
+         ELSE IF val.k = "reg" THEN Ok(IF ser THEN RegWrite(val.v[1], val) ELSE val, {}, val)
          ELSE IF IsStr(val) THEN Ok(LoadSimple(val.v), {}, val) ELSE Ok(val, {}, val)    \* what is INSIDE a container is left alone
     [] t.k = "literal" ->                                                                \* :772-777
          LET mem(x) == \E i \in 1..Len(t.v) : PyEq(x, t.v[i])                            \* `val in subtypehints` uses ==
@@ -407,6 +518,18 @@ AlgAdapt(t, val, orig, top, ser) ==
              v2 == IF t.k = "float" /\ v1.k = "int" THEN FloatV(v1.v, 1) ELSE v1         \* isinstance(val, int) and not bool
          IN IF ~IsInstance(t.k, v2) \/ (t.k \in {"int", "float"} /\ v2.k = "bool") THEN Er({}, val)
             ELSE Ok(v2, IF ser /\ IsStr(val) /\ t.k # "str" THEN {"serLenient"} ELSE {}, val)
+    [] t.k = "rstr" ->                                                                   \* :800-805 + extend_base_type.__new__:92-94
+         IF ser THEN Ok(val, {}, val)                                                    \* serializer = str
+         ELSE IF IsStr(val) /\ val.v \in RStrDefs[DefName(t)].m THEN Ok(val, {}, val)    \* cls._regex.match(v)
+         ELSE Er({}, val)
+    [] t.k = "rnum" ->                                                                   \* :800-805 + validation_fn:159-167
+         IF ser THEN Ok(val, {}, val)                                                    \* serializer = int / float of a value that has that type
+         ELSE IF RNumOk(RNumDefs[DefName(t)], val) THEN Ok(RNumCast(RNumDefs[DefName(t)], val), {}, val)
+         ELSE Er({}, val)
+    [] t.k = "reg" ->                                                                    \* :800-805 with the (de)serializers of typing.py:385-468
+         IF ser THEN Ok(IF val.k = "reg" /\ val.v[1] = DefName(t) THEN RegWrite(DefName(t), val) ELSE val, {}, val)
+         ELSE IF RegRead(DefName(t), val) # FailV THEN Ok(RegRead(DefName(t), val), {}, val)       \* is_value_of_type, else the deserializer
+         ELSE Er({}, val)
     [] t.k = "path" ->                                                                   \* :800-805 registered type Path_fr
          IF ser THEN Ok(IF val.k = "path" THEN StrV(val.v) ELSE val, {}, val)            \* serializer = str
          ELSE IF val.k = "path" THEN Ok(val, {}, val)                                    \* is_value_of_type: kept as it is
@@ -542,6 +665,15 @@ AlgParse(t, x, dflt) ==
                  IF r3.ok THEN Ok(Protect(r2.v, r3.m), r1.dev \cup r2.dev \cup r3.dev \cup (IF Protect(r2.v, r3.m) # r2.v THEN {"validateLeak"} ELSE {}), r1.m)
                  ELSE Er(r1.dev \cup r2.dev \cup r3.dev, r1.m)
 
+\* The NAME of the argument is also the name of a Namespace method (--items, --keys, --get, --g.items ...) and the value
+\* comes as an object (parse_object / parse_string / a config file): _core._apply_actions walks cfg.__dict__, whose keys
+\* carry the clash mark, finds no action for them and leaves the value as it is; only validate looks at it (on a clone,
+\* the result is discarded).  parse_args is not affected.  Deviation clashKey when the value is not already normalised.
+AlgParseClash(t, x, dflt) ==
+  IF x = NoneV THEN Ok(NoneV, {}, x)
+  ELSE LET r3 == AlgCheckType(t, x, dflt) IN
+       IF r3.ok THEN Ok(Protect(x, r3.m), r3.dev \cup (IF r3.v # x THEN {"clashKey"} ELSE {}), x) ELSE Er(r3.dev, x)
+
 \* The key is NOT given and the argument has the default d.
 \*   parse_object: _core.py:508  cfg = self._apply_actions(cfg) runs the defaults through _check_type -- the same passes
 \*                 as for an object that is given;  a class-typed option gets its init_args from a nested parse_object.
@@ -587,7 +719,7 @@ HasTuple(y) == CASE y.k = "tuple" -> TRUE
                  [] y.k = "dict" -> \E n \in 1..Len(y.v) : HasTuple(y.v[n][2])
                  [] OTHER -> FALSE
 TreeDevs(y) == (IF \E l \in Leaves(y) : IsStr(l) /\ l.v \in PlainFloatTexts THEN {"yamlFloatStr"} ELSE {})
-          \cup (IF \E l \in Leaves(y) : l.k \in {"enum", "exc", "path"} THEN {"leftObject"} ELSE {})   \* neither dumper can write it
+          \cup (IF \E l \in Leaves(y) : l.k \in {"enum", "exc", "path", "reg"} THEN {"leftObject"} ELSE {})   \* neither dumper can write it
           \cup (IF \E l \in Leaves(y) : l.k = "set" THEN {"leftSet"} ELSE {})                      \* json cannot write it
           \cup (IF JsonKeyClash(y) THEN {"jsonKeyCollision"} ELSE {})
           \cup (IF HasTuple(y) THEN {"leftTuple"} ELSE {})                                         \* written as a list, read back as a list
